@@ -83,6 +83,9 @@ def run_impl(c):
     if c.get("ctx"):
         with decimal.localcontext() as ctx:
             ctx.prec = c["ctx"]
+            # ... nor its rounding mode
+            ctx.rounding = [decimal.ROUND_HALF_EVEN, decimal.ROUND_FLOOR, decimal.ROUND_DOWN, decimal.ROUND_UP, decimal.ROUND_05UP,
+                            decimal.ROUND_CEILING][c["ctx"] % 6 if c.get("ctx_round", True) else 0]
             return _run_impl(c)
     return _run_impl(c)
 
@@ -235,7 +238,7 @@ def gen_cases(rng, tier):
         dtv = rng.sample(dtv, min(len(dtv), 2500))
     for t in dtv:
         cases.append({"k": "dt_fields", "t": t})
-        cases.append({"k": rng.choice(["dt_repr", "dt_str"]), "t": t, "ctx": rng.choice([None, None, None, 12, 6])})
+        cases.append({"k": rng.choice(["dt_repr", "dt_str"]), "t": t, "ctx": rng.choice([None, None, 12, 6, 31, 32, 33, 34, 64])})
         # the same observers on objects reached through other construction paths
         m = rng.randrange(6)
         obs = rng.choice(["dt_fields", "dt_str", "dt_repr"])
@@ -266,7 +269,7 @@ def gen_cases(rng, tier):
         f = [y, mo, rng.randrange(1, dmax + 1), rng.randrange(24), rng.randrange(60), rng.randrange(60),
              rng.choice([0, 999999, rng.randrange(10**6)]), rng.choice([0, 999999999, rng.randrange(10**9)]),
              rng.choice([0, 999999999, 54210, rng.randrange(10**9)])]
-        cases.append({"k": "dt_from_fields", "f": f, "ctx": rng.choice([None, None, 12, 6, 30])})
+        cases.append({"k": "dt_from_fields", "f": f, "ctx": rng.choice([None, None, 12, 6, 30, 31, 32, 33, 34, 65])})
     # calendar model against Python
     maxord = dt.date.max.toordinal()
     if big:
